@@ -216,7 +216,20 @@ static void cmd_off(Toks& t, std::ostream& os, int cbmode) {
     ClipperOffset co2(ml, at, pc, rs); setup(co2); add_all(co2);
     { PolyTree64 tr; co2.Execute(d, tr); std::ostringstream s; ser_tree(s, tr); T0 = s.str(); }
   }
-  os << "OK e2=" << (W2 == W) << " t=" << (T0 == T1) << " e3=" << (W3 == W) << " d2=" << (W4 == W) << " cl=" << (W5 == W) << " W "; put(os, W);
+  // bx: do the repeated results at least have the same bounding boxes ring by ring (same radii, other vertex counts)?
+  auto boxes = [](const Paths64& ps) {
+    std::vector<std::array<int64_t, 4>> b;
+    for (auto& p : ps) { Rect64 r = GetBounds(p); b.push_back({r.left, r.top, r.right, r.bottom}); }
+    std::sort(b.begin(), b.end()); return b; };
+  // (within one unit per coordinate: another step count moves the extreme vertices of a circle by less than that,
+  //  another radius -- the callback of cbmode 2 adds half a unit per normal it is shown -- by more)
+  auto near = [&](const Paths64& a, const Paths64& b) {
+    auto x = boxes(a), y = boxes(b);
+    if (x.size() != y.size()) return false;
+    for (size_t i = 0; i < x.size(); ++i) for (int k = 0; k < 4; ++k) if (std::llabs(x[i][k] - y[i][k]) > 1) return false;
+    return true; };
+  bool bx = near(W2, W) && near(W3, W) && near(W4, W) && near(W5, W);
+  os << "OK e2=" << (W2 == W) << " t=" << (T0 == T1) << " e3=" << (W3 == W) << " d2=" << (W4 == W) << " cl=" << (W5 == W) << " bx=" << bx << " W "; put(os, W);
   os << " NG " << gs.size();
   for (auto& g : gs) {
     Paths64 G; { ClipperOffset co(ml, at, pc, rs); setup(co); co.AddPaths(g.paths, (JoinType)g.jt, (EndType)g.et); co.Execute(d, G); }
